@@ -334,6 +334,9 @@ Theorem hash_key_side_conditions :
   (* profile / coverage builds: the output path is part of both *)
   existsb (fun c => match c with KProfileOutput => true | _ => false end) main_key_args = true /\
   existsb (fun c => match c with KProfileOutput => true | _ => false end) pp_key_args = true /\
+  (* with hash_working_directory = true (the documented default) the working directory is part of the
+     preprocessor-level key: relative include paths and the recorded absolute header paths belong to one directory *)
+  existsb (fun c => match c with KCwd => true | _ => false end) pp_key_args = true /\
   (* both key functions filter the environment by their OWN list: if generate_hash_key cuts the environment down
      beforehand, the cut must keep every variable of both lists *)
   match env_prefilter with
